@@ -204,6 +204,11 @@ impl Builder<'_> {
             *b.rng.pick(&b.names)
         };
         if self.names.len() >= 2 && self.rng.chance(self.p.p_union, 16) {
+            // real providers intern their unions: the same union id may be used by several requirements
+            if !self.w.unions.is_empty() && self.rng.chance(1, 3) {
+                let ids: Vec<u32> = self.w.unions.keys().copied().collect();
+                return Req::Union(*self.rng.pick(&ids));
+            }
             let k = self.rng.range(2, 3);
             let mut members = Vec::new();
             let mut used = BTreeSet::new();
@@ -825,4 +830,154 @@ pub fn conflict_gadget(rng: &mut Rng) -> (World, Vec<ProblemSpec>) {
         }
     }
     (w, vec![ProblemSpec { requirements: vec![Req::Single(root_vs)], constraints: vec![], soft: vec![] }])
+}
+
+
+/// Wide fan-out family: a solvable (the root, or a single solvable the root requires) with `width` requirements on
+/// distinct packages (futures combinators and request budgets change behaviour beyond a few dozen members), plus
+/// optionally one package with many hinted candidates and a union with many members.
+pub fn gen_wide(rng: &mut Rng, width: usize) -> (World, ProblemSpec) {
+    let mut w = World::default();
+    let mut next_s = 0u32;
+    let mut next_vs = 0u32;
+    let mut reqs: Vec<Req> = Vec::new();
+    let hint_all = rng.chance(1, 2);
+    for n in 0..width as u32 {
+        let k = if rng.chance(1, 12) { rng.range(31, 45) } else { rng.range(1, 3) };
+        let cands: Vec<u32> = (next_s..next_s + k as u32).collect();
+        next_s += k as u32;
+        for c in &cands {
+            w.solvables.insert(*c, Solvable { name: n, deps: Deps::Known { requirements: vec![], constrains: vec![] } });
+        }
+        let mut rank = cands.clone();
+        rng.shuffle(&mut rank);
+        w.packages.insert(
+            n,
+            Package {
+                candidates: cands.clone(),
+                rank,
+                favored: None,
+                locked: None,
+                excluded: vec![],
+                hint: if hint_all || rng.chance(1, 4) { Hint::All } else { Hint::None },
+                missing: false,
+            },
+        );
+        let mut m = cands.clone();
+        if m.len() > 1 && rng.chance(1, 3) {
+            m.remove(rng.below(m.len()));
+        }
+        m.sort();
+        w.version_sets.insert(next_vs, VersionSet { name: n, matches: m });
+        reqs.push(Req::Single(next_vs));
+        next_vs += 1;
+    }
+    // some cross requirements so that dependency answers introduce further work
+    let all: Vec<u32> = w.solvables.keys().copied().collect();
+    for s in &all {
+        if rng.chance(1, 5) {
+            let target = rng.below(width) as u32;
+            let vs = next_vs;
+            next_vs += 1;
+            let m = {
+                let mut m = w.packages[&target].candidates.clone();
+                m.sort();
+                m
+            };
+            w.version_sets.insert(vs, VersionSet { name: target, matches: m });
+            if let Deps::Known { requirements, .. } = &mut w.solvables.get_mut(s).unwrap().deps {
+                requirements.push(Req::Single(vs));
+            }
+        }
+    }
+    // hint fan: a hinted package whose (mostly never selected) candidates each need many fresh packages
+    if rng.chance(1, 3) {
+        let fan_name = width as u32 + 1000;
+        let k = rng.range(2, 3);
+        let fan_cands: Vec<u32> = (next_s..next_s + k as u32).collect();
+        next_s += k as u32;
+        let mut fresh_name = width as u32 + 2000;
+        for c in &fan_cands {
+            let mut requirements = Vec::new();
+            for _ in 0..rng.range(60, 110) {
+                let s = next_s;
+                next_s += 1;
+                w.solvables.insert(s, Solvable { name: fresh_name, deps: Deps::Known { requirements: vec![], constrains: vec![] } });
+                w.packages.insert(fresh_name, Package { candidates: vec![s], rank: vec![s], favored: None, locked: None, excluded: vec![], hint: Hint::None, missing: false });
+                w.version_sets.insert(next_vs, VersionSet { name: fresh_name, matches: vec![s] });
+                requirements.push(Req::Single(next_vs));
+                next_vs += 1;
+                fresh_name += 1;
+            }
+            w.solvables.insert(*c, Solvable { name: fan_name, deps: Deps::Known { requirements, constrains: vec![] } });
+        }
+        w.packages.insert(fan_name, Package { candidates: fan_cands.clone(), rank: fan_cands.clone(), favored: None, locked: None, excluded: vec![], hint: Hint::All, missing: false });
+        let mut m = fan_cands.clone();
+        m.sort();
+        w.version_sets.insert(next_vs, VersionSet { name: fan_name, matches: m });
+        reqs.push(Req::Single(next_vs));
+        next_vs += 1;
+    }
+    // a union with many members
+    if rng.chance(1, 3) && width >= 34 {
+        let k = rng.range(31, width.min(45));
+        let members: Vec<u32> = (0..k as u32).collect(); // the first k root version sets
+        w.unions.insert(0, members);
+        reqs.retain(|r| !matches!(r, Req::Single(v) if (*v as usize) < k));
+        reqs.insert(rng.below(reqs.len() + 1), Req::Union(0));
+    }
+    let problem = if rng.chance(1, 2) {
+        ProblemSpec { requirements: reqs, constraints: vec![], soft: vec![] }
+    } else {
+        // behind one solvable
+        let name = width as u32 + 500;
+        let s = next_s;
+        w.solvables.insert(s, Solvable { name, deps: Deps::Known { requirements: reqs, constrains: vec![] } });
+        w.packages.insert(name, Package { candidates: vec![s], rank: vec![s], favored: None, locked: None, excluded: vec![], hint: Hint::None, missing: false });
+        w.version_sets.insert(next_vs, VersionSet { name, matches: vec![s] });
+        ProblemSpec { requirements: vec![Req::Single(next_vs)], constraints: vec![], soft: vec![] }
+    };
+    (w, problem)
+}
+
+/// Deep chain family: package i requires package i+1 (a few candidates each); recursion depth in the subject must
+/// not grow with the length of a dependency chain.
+pub fn gen_chain(rng: &mut Rng, len: usize) -> (World, ProblemSpec) {
+    let mut w = World::default();
+    let mut next_s = 0u32;
+    for n in 0..len as u32 {
+        let k = if rng.chance(1, 10) { 2 } else { 1 };
+        let cands: Vec<u32> = (next_s..next_s + k).collect();
+        next_s += k;
+        for c in &cands {
+            let requirements = if (n as usize) + 1 < len { vec![Req::Single(n + 1)] } else { vec![] };
+            w.solvables.insert(*c, Solvable { name: n, deps: Deps::Known { requirements, constrains: vec![] } });
+        }
+        w.packages.insert(n, Package { candidates: cands.clone(), rank: cands.clone(), favored: None, locked: None, excluded: vec![], hint: Hint::None, missing: false });
+        w.version_sets.insert(n, VersionSet { name: n, matches: cands });
+    }
+    (w, ProblemSpec { requirements: vec![Req::Single(0)], constraints: vec![], soft: vec![] })
+}
+
+
+/// Adds `k` soft requirements, each on its own fresh package with one dependency on another fresh package.
+pub fn add_many_soft(rng: &mut Rng, w: &mut World, p: &mut ProblemSpec, k: usize) {
+    let mut next_name = w.packages.keys().max().map(|m| m + 1).unwrap_or(0);
+    let mut next_s = w.solvables.keys().max().map(|m| m + 1).unwrap_or(0);
+    let mut next_vs = w.version_sets.keys().max().map(|m| m + 1).unwrap_or(0);
+    for _ in 0..k {
+        let (qn, rn) = (next_name, next_name + 1);
+        next_name += 2;
+        let (qs, rs) = (next_s, next_s + 1);
+        next_s += 2;
+        let vs = next_vs;
+        next_vs += 1;
+        w.version_sets.insert(vs, VersionSet { name: rn, matches: vec![rs] });
+        w.solvables.insert(rs, Solvable { name: rn, deps: Deps::Known { requirements: vec![], constrains: vec![] } });
+        w.packages.insert(rn, Package { candidates: vec![rs], rank: vec![rs], favored: None, locked: None, excluded: vec![], hint: Hint::None, missing: false });
+        let requirements = if rng.chance(3, 4) { vec![Req::Single(vs)] } else { vec![] };
+        w.solvables.insert(qs, Solvable { name: qn, deps: Deps::Known { requirements, constrains: vec![] } });
+        w.packages.insert(qn, Package { candidates: vec![qs], rank: vec![qs], favored: None, locked: None, excluded: vec![], hint: Hint::None, missing: false });
+        p.soft.push(qs);
+    }
 }
